@@ -69,6 +69,8 @@ def exc_key(exc):
         import re
         msg = re.sub(r'\s+', ' ', str(exc))[:70]
         msg = re.sub(r'dict_keys\((.*?)\).*', r'\1', msg)
+        msg = re.sub(r'[-+]?\d[\d.+\-eE]*', '#', msg)   # values are not
+        # part of a mechanism
         return 'exc=%s:%s' % (type(exc).__name__, msg.strip())
     if fr is None:
         return 'exc=%s@<outside-repo>' % type(exc).__name__
